@@ -17,5 +17,12 @@ Proof. exact failed_flush_keeps_marks. Qed.
 Theorem C17_retry_reaches_the_file : forall ops k, unsynced (frun finit (ops ++ [FFlushOk])) k = false.
 Proof. exact flush_ok_clean. Qed.
 
+(* content form (Model/Flush.v: cst): a step, failed or not, leaves in the file for every slice either the old value or
+   the value the running device reads *)
+Theorem C17_file_holds_old_or_current : forall s o k,
+  file (cstep s o) k = file s k \/ file (cstep s o) k = mem (cstep s o) k.
+Proof. exact cstep_file_old_or_current. Qed.
+
 Print Assumptions C17_failed_flush_keeps_marks.
 Print Assumptions C17_retry_reaches_the_file.
+Print Assumptions C17_file_holds_old_or_current.
